@@ -471,19 +471,30 @@ def replay_tableform(n, history=False):
   from atsim.potentials.config import Configuration
   xs = [0.3 + 0.4 * i + 0.05 * (i % 3) for i in range(max(n, 4))]
   ys = [2.0 - 0.7 * i + 0.3 * (i % 2) for i in range(max(n, 4))]
-  head = "[Tabulation]\ntarget : LAMMPS\ncutoff : 5.0\nnr : 6\n\n[Pair]\nA-A : tabA\nB-B : tabB\n\n"
+  head = "[Tabulation]\ntarget : LAMMPS\ncutoff : 5.0\nnr : 6\n\n[Pair]\nA-A : tabA\nB-B : tabB\nC-C : tabC\n\n"
   if history:
     x0 = [0.1 + 0.9 * i for i in range(max(n, 4) + 1)]
     y0 = [5.0 + 0.25 * i * i for i in range(max(n, 4) + 1)]
     t0 = head + "[Table-Form:tabA]\nx : %s\ny : %s\n\n[Table-Form:tabB]\nxy : %s\n" % (
       " ".join(repr(v) for v in x0), " ".join(repr(v) for v in y0), "\n   ".join("%r %r" % p for p in zip(x0, y0)))
+    t0 += "\n[Table-Form:tabC]\nxy : %s\n" % "\n   ".join("%r %r" % p for p in zip(x0, y0))
     for p in Configuration().read(io.StringIO(t0)).potentials:
       p.energy(1.0)
   text = head + "[Table-Form:tabA]\nx : %s\ny : %s\n\n[Table-Form:tabB]\nxy : %s\n" % (
     " ".join(repr(v) for v in xs), " ".join(repr(v) for v in ys), "\n   ".join("%r %r" % p for p in zip(xs, ys)))
-  tab = Configuration().read(io.StringIO(text))
-  pa, pb = [p.potentialFunction for p in tab.potentials]
+  flat = [repr(v) for pair in zip(xs, ys) for v in pair]
+  wrapped3 = "\n     ".join(" ".join(flat[i:i + 3]) for i in range(0, len(flat), 3))
+  text += "\n[Table-Form:tabC]\nxy : %s\n" % wrapped3
+  try:
+    tab = Configuration().read(io.StringIO(text))
+  except Exception as e:  # noqa
+    return (True, "a model with the same data as x/y, as xy pairs and as xy wrapped three values to a line is refused: %s: %s" % (type(e).__name__, e), dict(kind="tableform", x=xs, y=ys, model=text))
+  pa, pb, pc3 = [p.potentialFunction for p in tab.potentials]
   bad = []
+  for x, y in zip(xs, ys):
+    if abs(pc3(x) - y) > 1e-9:
+      bad.append("xy data wrapped three values to a line: at data point (%r, %r) the form gives %r" % (x, y, pc3(x)))
+      break
   for x, y in zip(xs, ys):
     if abs(pa(x) - y) > 1e-9 or abs(pb(x) - y) > 1e-9:
       bad.append("at data point (%r, %r): x/y form gives %r, xy form %r" % (x, y, pa(x), pb(x)))
